@@ -683,6 +683,11 @@ def fixed_members():
         mem([(A("a", 2**31), A("b", 3))], [(2**31, 3)], {}, api, "fixed:2**31-dimension")
         mem([(A("a", 1),)], [None], {"a": 2**31}, api, "fixed:2**31-keyword")
         mem([(Grp((A("a", 2), A("b", 3))),), (Grp((A("b", 3), A("c", 5))),), (Grp((A("a", 2), A("c", 5))),)], [(6,), (15,), (10,)], {}, api, "fixed:nonlinear-unique")
+        # many axes / long decimal sizes: whatever text einx builds internally for shapes and sizes must not depend on their length
+        for n_ax, size in ((14, 54321), (16, 10007), (24, 123456), (40, 1), (40, 7)):
+            names = [f"x{i}" for i in range(n_ax)]
+            mem([tuple(A(n, size + i) for i, n in enumerate(names))], [tuple(size + i for i in range(n_ax))], {}, api, "fixed:many-axes")
+            mem([tuple(A(n, size + i) for i, n in enumerate(names))], [None], {n: size + i for i, n in enumerate(names)}, api, "fixed:many-keywords")
     return out
 
 
